@@ -705,11 +705,20 @@ impl<'r> Gen<'r> {
             }
             33 if self.feat.host && self.allow_host => {
                 let n = self.fresh("h");
-                match self.rng.below(4) {
-                    0 => {
-                        let s = self.str_lit();
+                match self.rng.below(6) {
+                    0 | 4 | 5 => {
+                        // The same few strings are interned again and again (before and after
+                        // collections), also built at run time so that they are not compile-time constants.
+                        let s = match self.rng.below(3) {
+                            0 => self.str_lit(),
+                            1 => format!("\"in\" + \"tern{}\"", self.rng.below(3)),
+                            _ => format!("\"k%d\" % {}", self.rng.below(4)),
+                        };
                         self.stmts.push(format!("{n} = intern({s})"));
                         self.bind(&n, Kind::Str);
+                        if let Some(prev) = self.of_kind(Kind::Str) {
+                            self.stmts.push(format!("emit({n} == {prev}, {{{n}: 1}}.get({prev}), intern({n}), len(intern({prev} + \"\")))"));
+                        }
                     }
                     1 => {
                         let mut allow = true;
